@@ -125,7 +125,9 @@ def judge_sequence(seq):
                 return False, "unit %d: picture number changed inside a fragmented picture" % k
             if u["count"] > remaining:
                 return False, "unit %d: more slices than remain" % k
-            if u["start"] != received:
+            # declared (x, y) offset must be the raster position of the next expected slice (2 slices per row)
+            declared = tuple(u["xy"]) if u.get("xy") is not None else (u["start"] % 2, u["start"] // 2)
+            if declared != (received % 2, received // 2) or u["start"] != received:
                 return False, "unit %d: fragment slices not contiguous" % k
             received += u["count"]
             remaining -= u["count"]
